@@ -3,7 +3,6 @@
   (Both directions, for all eight structures; the per-slot rules for headers are C08's.)
 -/
 import CosetProofs.Shapes
-import CosetProofs.Ties
 namespace Coset.Props.C09
 open Coset
 
@@ -67,11 +66,6 @@ example : (fromSlice CoseSign1.fromValue [0x84, 0x40, 0xa0, 0x41, 0x01, 0x41, 0x
     (fromSlice CoseEncrypt.fromValue [0x84, 0x40, 0xa0, 0x41, 0x01, 0x41, 0x02]).isOk = false := by decide +kernel
 
 
-/-! ### ties to the source text (regenerated on every run, compared in the kernel with the transcribed tree) -/
-/-- which field each positional `remove(i)` of every array-shaped decoder feeds. -/
-theorem tie_remove_fields : Coset.Ties.genRemoveFields = Coset.Ties.pinnedRemoveFields := Coset.Ties.remove_fields
-
-#print axioms tie_remove_fields
 #print axioms CoseSign1
 #print axioms CoseMac0
 #print axioms CoseEncrypt0
